@@ -35,8 +35,55 @@ def handle_expr(e, tainted) -> bool:
             e = e.func.value
         elif isinstance(e, ast.Attribute) and e.attr in ("attrs", "parent", "file"):
             e = e.value
+        elif copied_from(e) is not None:
+            e = copied_from(e)  # a plain copy of the members / attributes: a missing key raises KeyError just the same
         else:
             return False
+
+
+def copied_from(e):
+    """`dict(h)` / `dict(h.items())` / `h.copy()` / `{k: v for k, v in h.items()}` -> h (else None): a dictionary holding exactly what
+    the node (or its attribute set) holds."""
+    if isinstance(e, ast.Call) and isinstance(e.func, ast.Name) and e.func.id in ("dict", "OrderedDict") and len(e.args) == 1 and not e.keywords:
+        a = e.args[0]
+        if isinstance(a, ast.Call) and isinstance(a.func, ast.Attribute) and a.func.attr == "items" and not a.args:
+            return a.func.value
+        return a
+    if isinstance(e, ast.Call) and isinstance(e.func, ast.Attribute) and e.func.attr == "copy" and not e.args:
+        return e.func.value
+    if isinstance(e, ast.DictComp) and len(e.generators) == 1 and not e.generators[0].ifs:
+        g = e.generators[0]
+        if isinstance(g.iter, ast.Call) and isinstance(g.iter.func, ast.Attribute) and g.iter.func.attr == "items" and isinstance(g.target, ast.Tuple) \
+                and len(g.target.elts) == 2 and all(isinstance(t, ast.Name) for t in g.target.elts) \
+                and isinstance(e.key, ast.Name) and isinstance(e.value, ast.Name) and (e.key.id, e.value.id) == (g.target.elts[0].id, g.target.elts[1].id):
+            return g.iter.func.value
+    return None
+
+
+def stores_of(stmt) -> set:
+    """(local name, key text) of the items a statement stores into a dictionary the function holds (`d[k] = v`,
+    `d.setdefault(k, v)`): reading them back afterwards cannot fail, whatever the file lacks"""
+    out = set()
+    for n in ast.walk(stmt):
+        if isinstance(n, ast.Subscript) and isinstance(n.ctx, ast.Store) and isinstance(n.value, ast.Name):
+            out.add((n.value.id, unparse(n.slice)))
+        elif isinstance(n, ast.Call) and isinstance(n.func, ast.Attribute) and n.func.attr == "setdefault" and isinstance(n.func.value, ast.Name) and n.args:
+            out.add((n.func.value.id, unparse(n.args[0])))
+    return out
+
+
+def stored_before(fn_node) -> dict:
+    """id(load subscript) -> True when an EARLIER simple statement of the function stores the same key into the same local"""
+    simple = [s for s in ast.walk(fn_node) if isinstance(s, (ast.Assign, ast.AnnAssign, ast.AugAssign, ast.Expr, ast.Return))]
+    st = [(s, stores_of(s)) for s in simple]
+    out = {}
+    for s in simple:
+        for x in ast.walk(s):
+            if isinstance(x, ast.Subscript) and isinstance(x.ctx, ast.Load) and isinstance(x.value, ast.Name):
+                k = (x.value.id, unparse(x.slice))
+                if any(k in keys and t is not s and (t.lineno, t.col_offset) < (s.lineno, s.col_offset) for t, keys in st):
+                    out[id(x)] = True
+    return out
 
 
 def is_materialisation(sub) -> bool:
@@ -95,6 +142,15 @@ def tainted_names(fn, extra=()) -> set:
                 # `for child_type, child_list in entity.items()` / `for x in handle` — members of a handle
                 for nm in _member_targets(n.target, n.iter, tainted):
                     add(nm)
+                # `for k, v in handle.items(): copy[k] = v` — a copy made item by item
+                it = n.iter
+                if isinstance(it, ast.Call) and isinstance(it.func, ast.Attribute) and it.func.attr == "items" and handle_expr(it.func.value, tainted) \
+                        and isinstance(n.target, ast.Tuple) and len(n.target.elts) == 2 and all(isinstance(t, ast.Name) for t in n.target.elts):
+                    k, v = n.target.elts[0].id, n.target.elts[1].id
+                    for st in n.body:
+                        if isinstance(st, ast.Assign) and len(st.targets) == 1 and isinstance(st.targets[0], ast.Subscript) and isinstance(st.targets[0].value, ast.Name) \
+                                and isinstance(st.targets[0].slice, ast.Name) and st.targets[0].slice.id == k and isinstance(st.value, ast.Name) and st.value.id == v:
+                            add(st.targets[0].value.id)
             elif isinstance(n, ast.comprehension):
                 for nm in _member_targets(n.target, n.iter, tainted):
                     add(nm)
@@ -188,7 +244,7 @@ def names_in(e) -> frozenset:
 # ---------------------------------------------------------------------- membership / equality facts
 def facts_of(test, truth: bool) -> set:
     """Facts a test establishes on its `truth` edge (the test is expected alias-expanded):
-    ('in', key text, container text, names) and ('==', expression text, constant, names)."""
+    ('in' | 'notin', key text, container text, names) and ('==', expression text, constant, names)."""
     if isinstance(test, ast.UnaryOp) and isinstance(test.op, ast.Not):
         return facts_of(test.operand, not truth)
     if isinstance(test, ast.BoolOp):
@@ -202,6 +258,9 @@ def facts_of(test, truth: bool) -> set:
         if (isinstance(op, ast.In) and truth) or (isinstance(op, ast.NotIn) and not truth):
             cont = strip_view(right)
             return {("in", unparse(left), unparse(cont), names_in(left) | names_in(cont))}
+        if (isinstance(op, ast.NotIn) and truth) or (isinstance(op, ast.In) and not truth):
+            cont = strip_view(right)
+            return {("notin", unparse(left), unparse(cont), names_in(left) | names_in(cont))}
         if (isinstance(op, ast.Eq) and truth) or (isinstance(op, ast.NotEq) and not truth):
             if isinstance(right, ast.Constant) and not isinstance(left, ast.Constant):
                 return {("==", unparse(left), right.value, names_in(left))}
@@ -494,3 +553,57 @@ def node_exprs(node) -> list:
 
 def clone(e):
     return copy.deepcopy(e)
+
+
+# ---------------------------------------------------------------------- literal substitutes for missing items
+def is_literal_value(e) -> bool:
+    if isinstance(e, ast.Constant):
+        return True
+    if isinstance(e, ast.UnaryOp) and isinstance(e.op, (ast.USub, ast.UAdd)):
+        return is_literal_value(e.operand)
+    if isinstance(e, (ast.List, ast.Tuple, ast.Set)):
+        return all(is_literal_value(x) for x in e.elts)
+    if isinstance(e, ast.Dict):
+        return all(k is not None and is_literal_value(k) and is_literal_value(v) for k, v in zip(e.keys, e.values))
+    return False
+
+
+def record_root(e):
+    """the expression a record expression is rooted at: subscripts, attributes, `.get(..)` / `.copy()` / `dict(..)` copies peeled"""
+    while True:
+        if isinstance(e, (ast.Subscript, ast.Attribute)):
+            e = e.value
+        elif isinstance(e, ast.Call) and isinstance(e.func, ast.Attribute) and e.func.attr in ("get", "copy"):
+            e = e.func.value
+        elif copied_from(e) is not None:
+            e = copied_from(e)
+        else:
+            return e
+
+
+def substitutes(fn_node, is_record, al, stmt_facts) -> list:
+    """[(node, description)] — places where a record read from the file gets a LITERAL value for an item the file lacks:
+    `rec.setdefault(K, lit)`, `if K not in rec: rec[K] = lit`, a literal dictionary completed by the record
+    (`{K: lit, **rec}`, `dict({K: lit}, **rec)`)."""
+    out = []
+    for n in ast.walk(fn_node):
+        if isinstance(n, ast.Call) and isinstance(n.func, ast.Attribute) and n.func.attr == "setdefault" and len(n.args) == 2:
+            if is_record(n.func.value) and is_literal_value(al.x(n.args[1])):
+                out.append((n, f"setdefault({unparse(n.args[0])}, {unparse(al.x(n.args[1]))})"))
+        elif isinstance(n, ast.Dict) and None in n.keys:
+            first = n.keys.index(None)
+            lits = [(k, v) for k, v in zip(n.keys[:first], n.values[:first]) if k is not None and is_literal_value(al.x(v))]
+            if lits and any(k is None and is_record(v) for k, v in zip(n.keys, n.values)):
+                out.append((n, f"literal {unparse(lits[0][0])}: {unparse(al.x(lits[0][1]))} completed by the record"))
+        elif isinstance(n, ast.Call) and isinstance(n.func, ast.Name) and n.func.id == "dict" and len(n.args) == 1 and isinstance(al.x(n.args[0]), ast.Dict):
+            d = al.x(n.args[0])
+            if d.keys and is_literal_value(d) and any(k.arg is None and is_record(k.value) for k in n.keywords):
+                out.append((n, f"literal {unparse(d.keys[0])}: {unparse(d.values[0])} completed by the record"))
+    for stmt, facts in stmt_facts:
+        if isinstance(stmt, ast.Assign) and is_literal_value(al.x(stmt.value)):
+            for t in stmt.targets:
+                if isinstance(t, ast.Subscript) and is_record(t.value):
+                    kx, bx = unparse(al.x(t.slice)), unparse(strip_view(al.x(t.value)))
+                    if any(f[0] == "notin" and f[1] == kx and f[2] == bx for f in facts):
+                        out.append((stmt, f"{unparse(t.slice)} stored when absent: {unparse(al.x(stmt.value))}"))
+    return out
